@@ -19,15 +19,15 @@ Conventions
   * `paths` (internal to the real `enrich`) is kept as a ghost field of `Component`; the harness
     observes the real one by wrapping `graph.nearest_common_descendant`.
   * Not modelled: `coptrs` (C extension, absent), the thread pool (pure `map`), tracing.
-    Edges with a self loop make the real `enrich` mutate a dict while iterating over it; the
-    model has no counterpart (excluded by `IsDag`).
+  * Where the real `enrich` raises `KeyError` or never leaves `while remaining:` the total functions
+    return something arbitrary; `relaxE … enrichE` report it (`LoopErr`) and are what the driver runs.
 -/
 namespace EkwVerif.Presched
 
 /-- `sink_input_kw` / `sink_input_ps` of a well-formed `Task2TaskEdge` (exactly one is set). -/
 inductive Key where
   | kw (s : String)
-  | ps (n : Nat)
+  | ps (n : Int)
   deriving DecidableEq, Repr
 
 /-- `Task2TaskEdge(source=DatasetId(src,out), sink_task=dst, sink_input_*=key)` -/
@@ -91,9 +91,16 @@ def dependants (es : List (Edge α β)) : List ((α × β) × List α) :=
 def paramSource (es : List (Edge α β)) : List (α × List (Key × (α × β))) :=
   es.foldl (fun m e => dset m e.dst (dset ((dlookup m e.dst).getD []) e.key (e.src, e.out))) []
 
-/-- `edge_i[task] = {e for e in inputs.values()}` -/
-def edgeI (es : List (Edge α β)) : List (α × List (α × β)) :=
+/-- `edge_i` as `precompute` built it before the `fix:` commit of C16 (`edge_i[task] = {e for e in
+inputs.values()}` over `param_source`): the sources the EXECUTOR will read for `task` (it keeps using
+`param_source`). Of two edges into the same sink input only the later one is in it. -/
+def edgeIParams (es : List (Edge α β)) : List (α × List (α × β)) :=
   (paramSource es).map (fun p => (p.1, toSet (p.2.map (·.2))))
+
+/-- `for edge in job_instance.edges: edge_i[edge.sink_task].add(edge.source)` (after the fix: every
+edge counts, so `edge_i` mirrors `edge_o` whatever the sink inputs are) -/
+def edgeI (es : List (Edge α β)) : List (α × List (α × β)) :=
+  es.foldl (fun m e => dadd m e.dst (e.src, e.out)) []
 
 /-- `edge_o_proj[dataset.task] = edge_o_proj[dataset.task].union(outs)` -/
 def edgeOProj (eo : List ((α × β) × List α)) : List (α × List α) :=
@@ -231,6 +238,50 @@ def layersOf (fuel : Nat) (nodes : List α) (edge_i edge_o : α → List α) : L
   let remaining := (nodes.filter (fun v => !(edge_o v).isEmpty)).map (fun v => (v, (edge_o v).length))
   (layersLoop edge_i fuel remaining [] sinks).2
 
+/-! #### the same loop with the ways the real code can fail to produce a result
+
+`relax` above is total: where Python raises `KeyError` (`remaining[a] -= 1` for an `a` that is not,
+or no longer, a key) it returns the state unchanged, and where the real `while remaining:` never
+exits the fuel runs out. The `…E` versions make both visible; the driver runs these, so the
+correspondence check compares the error of the real code (`KeyError` / no return) with the model's.
+`layersLoopE_ok` (Props/C16.lean) shows that a successful `…E` run is the total function's result,
+so every theorem about `enrich` speaks about what the `…E` run returns. -/
+
+inductive LoopErr where
+  | keyError      -- `remaining[a] -= 1` raised
+  | diverges      -- `layers[-1]` is empty while `remaining` is not: the loop reproduces its own state for ever
+  | fuel          -- fuel exhausted in any other state (never observed; would show as a disagreement)
+  deriving DecidableEq, Repr
+
+/-- `remaining[a] -= 1; …` — `none` = `KeyError` -/
+def relaxE (st : List (α × Nat) × List α) (a : α) : Option (List (α × Nat) × List α) :=
+  match dlookup st.1 a with
+  | none => none
+  | some k =>
+    if k - 1 = 0 then some (derase st.1 a, st.2 ++ [a])
+    else some (dset st.1 a (k - 1), st.2)
+
+/-- `List.foldlM` in `Option`, written out (structural, so that it evaluates in the kernel) -/
+def foldO {σ τ : Type} (f : σ → τ → Option σ) : List τ → σ → Option σ
+  | [], s => some s
+  | x :: xs, s => match f s x with
+    | none => none
+    | some s' => foldO f xs s'
+
+def layerStepE (pa : α → List α) (rem : List (α × Nat)) (layer : List α) : Option (List (α × Nat) × List α) :=
+  foldO (fun st v => foldO relaxE (pa v) st) layer (rem, [])
+
+def layersLoopE (pa : α → List α) : Nat → List (α × Nat) → List (List α) → List α →
+    Except LoopErr (List (α × Nat) × List (List α))
+  | 0, rem, acc, last => if rem.isEmpty then .ok (rem, acc ++ [last]) else .error .fuel
+  | f + 1, rem, acc, last =>
+    if rem.isEmpty then .ok (rem, acc ++ [last])
+    else if last.isEmpty then .error .diverges
+    else
+      match layerStepE pa rem last with
+      | none => .error .keyError
+      | some st => layersLoopE pa f st.1 (acc ++ [last]) st.2
+
 /-- `enrich` with an explicit fuel for the `while remaining` loop -/
 def enrichF (fuel : Nat) (pc : List α × List α) (edge_i edge_o : α → List α) : Component α :=
   let nodes := pc.1
@@ -241,6 +292,20 @@ def enrichF (fuel : Nat) (pc : List α × List α) (edge_i edge_o : α → List 
 
 def enrich (pc : List α × List α) (edge_i edge_o : α → List α) : Component α :=
   enrichF pc.1.length pc edge_i edge_o
+
+/-- `enrich` as the real code behaves: an error instead of a component when the layering loop raises
+or never exits -/
+def enrichE (fuel : Nat) (pc : List α × List α) (edge_i edge_o : α → List α) : Except LoopErr (Component α) :=
+  let nodes := pc.1
+  let sinks := nodes.filter (fun v => (edge_o v).isEmpty)
+  let remaining := (nodes.filter (fun v => !(edge_o v).isEmpty)).map (fun v => (v, (edge_o v).length))
+  match layersLoopE edge_i fuel remaining [] sinks with
+  | .error e => .error e
+  | .ok r =>
+    let layers := r.2
+    let L := layers.length
+    let st := dp L edge_o layers
+    .ok { nodes := nodes, sources := pc.2, dist := ncd L st.2 nodes, value := st.1, depth := L, paths := st.2 }
 
 end Enrich
 
@@ -272,13 +337,36 @@ def precompute (job : Job α β) : Preschedule α β :=
   { components := sortDesc comps, edge_o := dependants job.edges, edge_i := edgeI job.edges,
     task_o := taskO job.tasks }
 
+/-- fuel that suffices for `flood` whatever the edges are: a visited vertex is a task or an end of an
+edge (`decompose` itself uses `len(nodes)`, enough when all ends are tasks — `c16_fuel`) -/
+def floodFuel (job : Job α β) : Nat := job.ids.length + 2 * job.edges.length
+
+def plainComponentsX (job : Job α β) : List (List α × List α) :=
+  decomposeF (floodFuel job) job.ids (edgeIP job) (edgeOP job)
+
+/-- the errors of the components whose `enrich` fails (in the real code the first one met ends
+`precompute`; which one is met first depends on set iteration order) -/
+def enrichErrors (job : Job α β) : List LoopErr :=
+  (plainComponentsX job).filterMap (fun pc =>
+    match enrichE pc.1.length pc (edgeIP job) (edgeOP job) with
+    | .error e => some e
+    | .ok _ => none)
+
+/-- what the driver runs: `precompute` with the generous flood fuel, so that it follows the real
+code also on jobs with edges whose ends are not tasks (those vertices are swept into components).
+`c16_driver_runs_model`: on well-formed DAGs this IS `precompute`. -/
+def precomputeX (job : Job α β) : Preschedule α β :=
+  let comps := (plainComponentsX job).map (fun pc => enrich pc (edgeIP job) (edgeOP job))
+  { components := sortDesc comps, edge_o := dependants job.edges, edge_i := edgeI job.edges,
+    task_o := taskO job.tasks }
+
 /-- a `Task2TaskEdge` as pydantic holds it: both sink-input fields optional -/
 structure RawEdge (α β : Type) where
   src : α
   out : β
   dst : α
   kw : Option String
-  ps : Option Nat
+  ps : Option Int
 
 /-- the checks of `param_source` (`TypeError` when both or neither are given) -/
 def RawEdge.toEdge? (e : RawEdge α β) : Option (Edge α β) :=
@@ -290,6 +378,10 @@ def RawEdge.toEdge? (e : RawEdge α β) : Option (Edge α β) :=
 /-- `precompute` on a raw job; `none` = `TypeError` -/
 def precomputeRaw (tasks : List (α × List β)) (raw : List (RawEdge α β)) : Option (Preschedule α β) :=
   (raw.mapM RawEdge.toEdge?).map (fun es => precompute ⟨tasks, es⟩)
+
+/-- the raw job as the driver runs it -/
+def precomputeRawX (tasks : List (α × List β)) (raw : List (RawEdge α β)) : Option (Preschedule α β) :=
+  (raw.mapM RawEdge.toEdge?).map (fun es => precomputeX ⟨tasks, es⟩)
 
 end Precompute
 
